@@ -88,8 +88,10 @@ def dpath(l):
 # reading of what that text matches (facts about globset measured in DESIGN section 3).
 def glob(p):
     f, a = p
+    # mid / tq / text are SEPARATOR-FREE patterns that nevertheless match deep paths (star and ? cross the separator):
+    # *gen* matches t/gen/a.rs, t?gen* matches everything at or below t/gen, t*.rs every path that ends in .rs
     return {"lit": a, "ext": "*" + a, "under": a + "/**", "any": "**/" + a, "anyunder": "**/" + a + "/**",
-            "pre": a + "*"}[f]
+            "pre": a + "*", "mid": "*" + a + "*", "tq": ROOT_NAME + "?" + a + "*", "text": ROOT_NAME + "*" + a}[f]
 
 
 def m_path(p, path):
@@ -106,6 +108,12 @@ def m_path(p, path):
         return ("/" + path).find("/" + a + "/") >= 0
     if f == "pre":
         return path.startswith(a)
+    if f == "mid":
+        return a in path
+    if f == "tq":
+        return len(path) >= 2 and path.startswith(ROOT_NAME) and path[len(ROOT_NAME) + 1:].startswith(a)
+    if f == "text":
+        return path.startswith(ROOT_NAME) and path[len(ROOT_NAME):].endswith(a)
     raise ValueError(f)
 
 
@@ -720,10 +728,35 @@ def gen_excludes(rng, cfg, root):
         if r < 0.88:
             return ("anyunder", rng.choice(["vendor", "build", "node_modules", "gen", "a", ".cache", "target"]))
         return ("pre", rng.choice(["temp_", "k", ".", "ln"]))
+    def path_only_pattern():
+        """a pattern WITHOUT a separator that matches entries by their project-relative PATH and not by their name:
+        count_exclude (and scanner.exclude) try the name and the normalised path, and globset's star and ? cross the
+        separator, so *gen* / t?gen* take everything at or below t/gen out of the quotas, however deep"""
+        dl = [n for n in names if n.kind == "d" and n.children]
+        deep = [n for n in dl if any(c.kind == "d" and c.children for c in n.children)]
+        r = rng.random()
+        if r < 0.45 and dl:
+            return ("mid", rng.choice(deep or dl).name)
+        if r < 0.75 and dl:
+            top = [n for n in dl if n.parent is root]
+            if top:
+                n = rng.choice(top)
+                return ("tq", n.name if rng.random() < 0.6 else n.name[:max(1, len(n.name) - 1)])
+        if r < 0.95:
+            return ("text", rng.choice([".rs", ".md", ".bin", ".tsx", ".tmp", ".py"]))
+        return ("pre", ROOT_NAME)
     if rng.random() < 0.45:
         cfg.count_exclude = [some_pattern() for _ in range(rng.randint(1, 3))]
+        if rng.random() < 0.4:
+            # mostly alone or next to other separator-free patterns (whether ANY pattern of the list has a separator must not matter)
+            po = path_only_pattern()
+            if rng.random() < 0.5:
+                cfg.count_exclude = [p for p in cfg.count_exclude if "/" not in glob(p)][:rng.randint(0, 2)]
+            cfg.count_exclude.insert(rng.randint(0, len(cfg.count_exclude)), po)
     if rng.random() < 0.45:
         cfg.scanner_exclude = [some_pattern() for _ in range(rng.randint(0, 3))]
+        if rng.random() < 0.15:
+            cfg.scanner_exclude.append(path_only_pattern())
         if rng.random() < 0.5:
             cfg.scanner_exclude.append(("under", ".git"))
         # never exclude the scan root itself (walker corner, not modelled)
@@ -807,7 +840,8 @@ def gen_siblings(rng):
                         "require": req, "require_list": len(req) > 1 or rng.random() < 0.3, "warn": rng.random() < 0.3})
         else:
             grp = rng.choice([["{stem}.tsx", "{stem}.test.tsx"], ["{stem}.tsx", "{stem}.test.tsx", "{stem}.module.css"],
-                              ["{stem}.rs", "{stem}.md"], ["k{stem}.rs", "{stem}.py"], ["{stem}.tsx", "{stem}.{stem}"], ["{stem}", "{stem}.rs"]])
+                              ["{stem}.rs", "{stem}.md"], ["k{stem}.rs", "{stem}.py"], ["{stem}.tsx", "{stem}.{stem}"], ["{stem}", "{stem}.rs"],
+                              ["{stem}.tsx", "__tests__/{stem}.test.tsx"], ["{stem}.rs", "tests/{stem}.rs", "./{stem}.md"]])
             out.append({"kind": "group", "group": grp, "warn": rng.random() < 0.3})
     return out
 
@@ -843,6 +877,53 @@ def inject_dotfile_siblings(rng, root, cfg):
         sibs.append({"kind": "directed", "match": rng.choice([t, t, ".*", "*"]), "require": ["{stem}.example"],
                      "require_list": rng.random() < 0.3, "warn": rng.random() < 0.3})
     cfg.rules.append({"scope": scope, "siblings": sibs[:2] if len(sibs) > 2 and rng.random() < 0.5 else sibs})
+
+
+NESTED_GROUPS = [(["{stem}.tsx", "__tests__/{stem}.test.tsx"], ["Button", "Icon", "Card", "Nav"], ".tsx", "__tests__", ".test.tsx"),
+                 (["{stem}.rs", "tests/{stem}_test.rs"], ["alpha", "beta", "gamma"], ".rs", "tests", "_test.rs"),
+                 (["{stem}.py", "sub/deep/{stem}.md", "{stem}.json"], ["one", "two", "three"], ".py", "sub/deep", ".md")]
+
+
+def inject_nested_groups(rng, root, cfg):
+    """a group rule one of whose member templates contains a path separator (the member lives in a sub-directory of
+    the component directory: __tests__/{stem}.test.tsx): in 1-3 directories put components whose nested member exists
+    (complete group: nothing to report), components without it (incomplete), and nested members without a component"""
+    dirs = [n for n in root.walk() if n.kind == "d" and len(n.children) <= 8 and n.path.count("/") <= 5]
+    if not dirs:
+        return
+    grp, stems, ext, sub, subext = rng.choice(NESTED_GROUPS)
+    picked = rng.sample(dirs, min(len(dirs), rng.randint(1, 3)))
+
+    def child(d, name, kind):
+        for c_ in d.children:
+            if c_.name == name:
+                return c_ if c_.kind == kind else None
+        if len(d.children) >= 12:
+            return None
+        n = Node(name, kind)
+        n.parent = d
+        d.children.append(n)
+        return n
+    for d in picked:
+        for st in rng.sample(stems, rng.randint(1, len(stems))):
+            mode = rng.choice(["complete", "complete", "incomplete", "incomplete", "orphan"])
+            if mode != "orphan":
+                child(d, st + ext, "f")
+                if len(grp) > 2 and rng.random() < 0.7:
+                    child(d, st + ".json", "f")
+            if mode != "incomplete":
+                cur = d
+                for comp in sub.split("/"):
+                    cur = child(cur, comp, "d") if cur is not None else None
+                if cur is not None:
+                    child(cur, st + subext, "f")
+    assign_paths(root)
+    d0 = rng.choice(picked)
+    scope = rng.choice(["**", ROOT_NAME + "/**", d0.path, d0.path, "**/" + d0.name, d0.path + "/**"])
+    sibs = [{"kind": "group", "group": list(grp), "warn": rng.random() < 0.3}]
+    if rng.random() < 0.3:
+        sibs.append({"kind": "directed", "match": "*" + ext, "require": [grp[1]], "require_list": rng.random() < 0.3, "warn": rng.random() < 0.3})
+    cfg.rules.append({"scope": scope, "siblings": sibs})
 
 
 def gen_cfg(rng, root, flavour):
@@ -899,6 +980,24 @@ def gen_cfg(rng, root, flavour):
             cfg.rules.append(r)
     if flavour in ("siblings", "mix") and rng.random() < (0.5 if flavour == "siblings" else 0.2):
         inject_dotfile_siblings(rng, root, cfg)
+    if flavour in ("siblings", "mix") and cfg.rules and rng.random() < 0.4:
+        # a rule declared AFTER the sibling rules whose scope overlaps theirs (same scope, a directory below it, or a
+        # catch-all): it supersedes them as a whole where it matches (fixes/D81), with or without sibling entries of its own
+        prev = [r_ for r_ in cfg.rules if r_.get("siblings")]
+        sc = rng.choice(pool)
+        if prev and rng.random() < 0.6:
+            ps = rng.choice(prev)["scope"]
+            below = [n.path for n in root.walk() if n.kind == "d"]
+            sc = rng.choice([ps, "**", ROOT_NAME + "/**", rng.choice(below), rng.choice(below) + "/**"])
+        late = {"scope": sc}
+        k_ = rng.random()
+        if k_ < 0.5:
+            late["max_files"] = rng.choice([-1, 50, 100])
+        elif k_ < 0.8:
+            late["siblings"] = gen_siblings(rng)
+        cfg.rules.append(late)
+    if flavour in ("siblings", "mix") and rng.random() < (0.45 if flavour == "siblings" else 0.15):
+        inject_nested_groups(rng, root, cfg)
     if len(cfg.rules) > 1 and rng.random() < 0.3:
         rng.shuffle(cfg.rules)
     return cfg
@@ -1164,6 +1263,12 @@ def diff_list(a, b):
     return {"impl_only": [x for x in a if x not in b][:6], "other_only": [x for x in b if x not in a][:6]}
 
 
+def last_matching(rules, column):
+    """[(index, rule)] of the last declared rule whose scope matches (column = the directory's scope answers), or []"""
+    hit = [i for i, b in enumerate(column) if b and i < len(rules)]
+    return [(hit[-1], rules[hit[-1]])] if hit else []
+
+
 def evaluate(c):
     """-> dict: corr (model vs impl mismatches per component), prop (property-oracle failures per component),
     tags (what the case exercised)"""
@@ -1304,9 +1409,9 @@ def evaluate(c):
             po, fo = impl["oracle"].get(sp + parent), impl["oracle"].get(sp + f)
             if po is None or fo is None:
                 continue
-            for i, r_ in enumerate(c["cfg"].rules):
-                if i >= len(po["lim"]) or not po["lim"][i]:
-                    continue
+            # fixes/D81: the sibling entries consulted are those of the LAST declared rule whose scope matches the directory
+            # (the rule explain names); they do not accumulate over the other matching rules
+            for i, r_ in last_matching(c["cfg"].rules, po["lim"]):
                 for k, sb_ in enumerate(r_.get("siblings", [])):
                     if sb_["kind"] != "directed" or not fo["sib"][i][k]:
                         continue
@@ -1316,9 +1421,44 @@ def evaluate(c):
         got = [v for v in d["siblings"] if v[1] == "missing_sibling"]
         if sorted(want, key=repr) != sorted(got, key=repr):
             r["prop"]["directed-sibling"] = diff_list(sorted(got, key=repr), sorted(want, key=repr))
+        # group rules, by the generator's own reading: a scanned file that is a member of the group for some stem (its NAME
+        # fits a member template: text before {stem} is a prefix, text after it a suffix, something in between) is reported
+        # iff for every such stem some member parent/<template with that stem> is not among the scanned files; a member
+        # template may contain a separator (__tests__/{stem}.test.tsx: the member lives below the directory). The report
+        # lists the templates missing for the stem that leaves fewest missing (the first such stem)
+        def py_extract(nm, pat):
+            parts = pat.split("{stem}")
+            if len(parts) != 2:
+                return None
+            pre, suf = parts
+            if not nm.startswith(pre) or not nm.endswith(suf) or len(pre) >= len(nm) - len(suf):
+                return None
+            return nm[len(pre):len(nm) - len(suf)]
+        wantg = []
+        for f in d["files"]:
+            parent, nm = f.rsplit("/", 1)
+            po = impl["oracle"].get(sp + parent)
+            if po is None:
+                continue
+            for i, r_ in last_matching(c["cfg"].rules, po["lim"]):
+                for sb_ in r_.get("siblings", []):
+                    if sb_["kind"] != "group":
+                        continue
+                    stems = [x for x in (py_extract(nm, t) for t in sb_["group"]) if x is not None]
+                    if not stems:
+                        continue
+                    miss = [[t for t in sb_["group"] if joinp(parent, t.replace("{stem}", st)) not in fset] for st in stems]
+                    best = min(miss, key=len)
+                    if best:
+                        wantg.append((f, "group_incomplete", tuple(best), 1, 1, bool(sb_.get("warn")), r_["scope"]))
+                    if any("/" in t.strip("./") for t in sb_["group"]):
+                        r["tags"].add("group-member-in-subdirectory:" + ("incomplete" if best else "complete"))
+        gotg = [v for v in d["siblings"] if v[1] == "group_incomplete"]
+        if sorted(wantg, key=repr) != sorted(gotg, key=repr):
+            r["prop"]["group-sibling"] = diff_list(sorted(gotg, key=repr), sorted(wantg, key=repr))
     # the rule consulted is the one explain names for the parent directory (implementation vs implementation)
     if impl["checker_enabled"]:
-        for v in d["placement"]:
+        for v in d["placement"] + d["siblings"]:
             if v[6] in (None, "global"):
                 continue
             parent = v[0].rsplit("/", 1)[0] if "/" in v[0] else None
@@ -1355,6 +1495,8 @@ def evaluate(c):
         tg.add("scanner-excluded")
     if any(v["ce_name"] or v["ce_path"] for v in o.values()):
         tg.add("count-excluded")
+    if any(v["ce_path"] and not v["ce_name"] for v in o.values()) and not any("/" in glob(p_) for p_ in c["cfg"].count_exclude):
+        tg.add("count-excluded-by-path-with-separator-free-patterns")
     if any(n.kind == "o" for n in c["root"].walk()):
         tg.add("non-regular")
     if any(n.kind == "d" and not n.children for n in c["root"].walk()):
@@ -1363,6 +1505,11 @@ def evaluate(c):
         tg.add("hidden")
     if any(sum(v["lim"]) >= 2 for v in o.values() if v["lim"]):
         tg.add("overlapping-rules")
+    for v in o.values():
+        hit = [i_ for i_, b_ in enumerate(v["lim"] or []) if b_ and i_ < len(cfg.rules)]
+        if len(hit) >= 2 and any(cfg.rules[i_].get("siblings") for i_ in hit[:-1]):
+            tg.add("superseded-rule-with-sibling-entries")
+            break
     if any(any(v["lim"]) for v in o.values() if v["lim"]):
         tg.add("rule-matched")
     if any(r_.get("relative_depth") for r_ in cfg.rules):
@@ -1798,7 +1945,7 @@ def load_structure_corpus():
 C06_PARTS = {"corr": ("stats", "limits", "explain", "cli-explain", "config_ok", "model", "cli", "cli-run", "scope-sites"),
              "prop": ("counts", "limits", "roots", "scope-spelling", "valid-config-rejected", "invalid-config-accepted")}
 C07_PARTS = {"corr": ("files", "placement", "siblings", "config_ok", "model", "cli", "cli-run", "scope-sites"),
-             "prop": ("placement", "file-reported-twice", "count-excluded-not-placed", "roots", "rule-consulted", "directed-sibling", "scope-spelling",
+             "prop": ("placement", "file-reported-twice", "count-excluded-not-placed", "roots", "rule-consulted", "directed-sibling", "group-sibling", "scope-spelling",
                       "valid-config-rejected", "invalid-config-accepted")}
 
 
